@@ -83,6 +83,42 @@ def _transpose_of(t: T) -> Optional[T]:
         return tm.method_recv(t)
     if is_call_to(t, "numpy.transpose") and len(t.args[1]) == 1:
         return t.args[1][0]
+    if is_call_to(t, "numpy.swapaxes") and len(t.args[1]) == 3 and \
+            {tm.const_val(z) if tm.is_const(z) else None
+             for z in t.args[1][1:]} in ({-1, -2}, {0, 1}):
+        return t.args[1][0]       # the transpose of a (stack of) matrices
+    return None
+
+
+def _single(a: T):
+    """the helpers are analysed for one group element (the documented call
+    form): dimension tests that only tell a single matrix / vector from a
+    stack are decided for the single one"""
+    from ..lib import strip_asarray
+    if a.op != "cmp":
+        return None
+    op, l, r = a.args
+    l = strip_asarray(l)
+    if l.op == "attr" and l.args[1] == "ndim" and tm.is_const(r) and \
+            op in ("Eq", "NotEq"):
+        inner = l.args[0]
+        # scalar results (norm / rad2deg of a norm) and rotation vectors
+        scalar = any(is_call_to(z, "numpy.linalg.norm") for z in
+                     inner.walk())
+        k = tm.const_val(r)
+        if scalar and k == 0:
+            return op == "Eq"
+        if not scalar and k in (1, 2, 3):
+            vec = any(is_call_to(z, ".as_rotvec") for z in inner.walk())
+            want = 1 if vec else 2
+            return (k == want) == (op == "Eq")
+    if l.op == "sub" and l.args[0].op == "attr" and \
+            l.args[0].args[1] == "shape" and r.op == "tuple" and \
+            op in ("Eq", "NotEq") and l.args[0].args[0].op == "param":
+        n = len(r.args)
+        dims = [tm.const_val(z) if tm.is_const(z) else None for z in r.args]
+        if dims in ([3, 3], [4, 4]):
+            return op == "Eq"     # the argument is a matrix of that group
     return None
 
 
@@ -110,7 +146,17 @@ def _conjuncts(ret: T):
 
 def check(ctx):
     prog = ctx.prog
-    run = lambda n, **kw: Interp(prog).run(prog.func(L + n), kw)
+    from ..lib import strip_asarray
+
+    class _R:          # result view with array conversions looked through
+        def __init__(self, r):
+            self._r = r
+            self.ret = strip_asarray(r.ret)
+
+        def __getattr__(self, k):
+            return getattr(self._r, k)
+    run = lambda n, **kw: _R(Interp(prog, assume=_single).run(
+        prog.func(L + n), kw))
     ctx.analysed_fn(*(L + n for n in (
         "hat", "vee", "so3_log", "so3_log_angle", "se3", "sim3",
         "se3_inverse", "sim3_scale", "sim3_inverse", "is_so3", "is_se3",
@@ -196,11 +242,9 @@ def check(ctx):
     ok = False
     if is_call_to(ret, L + "se3") and len(ret.args[1]) == 2:
         ri, ti = ret.args[1]
-        ok = _transpose_of(ri) is tm.sub(p, R33) and ti.op == "unop" and \
-            ti.args[0] == "USub"
-        if ok:
-            o = _dot_operands(ti.args[1])
-            ok = o is not None and o[0] is ri and o[1] is tm.sub(p, T3)
+        o = _neg_dot(ti)
+        ok = _transpose_of(ri) is tm.sub(p, R33) and o is not None and \
+            o[0] is ri and o[1] is tm.sub(p, T3)
     ctx.ob("C09.2", prog.func(L + "se3_inverse"), ok,
            "se3_inverse(p) = se3(R^T, -R^T t) of p's own blocks" if ok else
            f"se3_inverse = {fmt(ret)}", key="C09.2:se3_inverse")
@@ -211,15 +255,17 @@ def check(ctx):
     if is_call_to(ret, L + "sim3") and len(ret.args[1]) == 3:
         ri, ti, si = ret.args[1]
         S = tm.call(tm.func(L + "sim3_scale"), (a,), ())
-        inv_s = T("binop", "Div", const(1), S)
+        inv_s = si
+        recip = si.op == "binop" and si.args[0] == "Div" and \
+            tm.is_const(si.args[1]) and tm.const_val(si.args[1]) == 1 and \
+            si.args[2] is S
         base = _transpose_of(ri)
-        ok = base is not None and base.op == "binop" and \
+        o = _neg_dot(ti)
+        ok = recip and base is not None and base.op == "binop" and \
             base.args[0] == "Mult" and {base.args[1], base.args[2]} == \
-            {inv_s, tm.sub(a, R33)} and si is inv_s and ti.op == "unop" \
-            and ti.args[0] == "USub"
+            {inv_s, tm.sub(a, R33)} and o is not None
         if ok:
-            o = _dot_operands(ti.args[1])
-            ok = o is not None and o[0] is ri and o[1].op == "binop" and \
+            ok = o[0] is ri and o[1].op == "binop" and \
                 o[1].args[0] == "Mult" and {o[1].args[1], o[1].args[2]} == \
                 {inv_s, tm.sub(a, T3)}
     ctx.ob("C09.2", prog.func(L + "sim3_inverse"), ok,
@@ -228,7 +274,8 @@ def check(ctx):
            f"sim3_inverse = {fmt(ret)}", key="C09.2:sim3_inverse")
     for name, rot_expected in (("se3", tm.param("r")),
                                ("sim3", None)):
-        ret = run(name).ret
+        # (for arguments that are given: `x is None` defaults do not apply)
+        ret = _given(run(name).ret)
         ok = ret.op == "upd" and ret.args[0].op == "upd" and \
             is_call_to(ret.args[0].args[0], "numpy.eye") and \
             tm.is_const(ret.args[0].args[0].args[1][0], 4)
@@ -372,7 +419,7 @@ def check(ctx):
     # --------------------------------------------------------------- C09.4
     f = prog.func(L + "so3_log_angle")
     for deg in (False, True):
-        res = Interp(prog).run(f, {"degrees": const(deg)})
+        res = Interp(prog, assume=_single).run(f, {"degrees": const(deg)})
         # the property speaks about genuine group elements: a separate
         # treatment of matrices that fail the membership test is outside it
         member = tm.call(tm.func(L + "is_so3"), (tm.param("r"),), ())
@@ -386,6 +433,8 @@ def check(ctx):
         conv = is_call_to(x, "numpy.rad2deg", "numpy.degrees",
                           "math.degrees")
         if conv:
+            x = genuine(x.args[1][0])
+        if is_call_to(x, "builtins.float") and x.args[1]:
             x = genuine(x.args[1][0])
         ret = x
         ang_ok = is_call_to(x, "numpy.linalg.norm") and x.args[1] and \
@@ -416,6 +465,39 @@ def check(ctx):
         else:
             ctx.undecidable("C09.4", f, f"angle idiom not recognised: "
                             f"{fmt(ret)}")
+
+
+def _given(t: T) -> T:
+    """value for arguments that were passed: conditionals on
+    `<parameter> is None` take the not-None alternative (at any depth)"""
+    def assign(a: T):
+        if a.op == "cmp" and a.args[0] in ("Is", "IsNot") and \
+                a.args[1].op == "param" and a.args[2] is tm.NONE:
+            return a.args[0] == "IsNot"
+        return None
+
+    def rw(x: T):
+        if x.op == "ite":
+            c = tm.fold(x.args[0], assign)
+            if c is not None:
+                return x.args[1] if c else x.args[2]
+        return None
+    return t.map(rw)
+
+
+def _neg_dot(t: T):
+    """(a, b) if t is -(a . b), (-a) . b or a . (-b)"""
+    if t.op == "unop" and t.args[0] == "USub":
+        return _dot_operands(t.args[1])
+    o = _dot_operands(t)
+    if o is None:
+        return None
+    a, b = o
+    if a.op == "unop" and a.args[0] == "USub":
+        return a.args[1], b
+    if b.op == "unop" and b.args[0] == "USub":
+        return a, b.args[1]
+    return None
 
 
 def _default_of(fn, v: T) -> T:
